@@ -350,3 +350,63 @@ def inject_units(tier, integs=("generic", "rdflib")):
 def c16(tier):
     us = inject_units(tier)
     return us + [twin(us[0])]
+
+
+@prop("C17", functions=REJ_FUNCS + ["pyjelly/options.py:MAX_LOOKUP_SIZE"],
+      bounds={"quick": {"alloc": "LookupDecoder size symbolic over every integer > 4096 (rejected with zero allocations, observed by a spy on deque) and {0,1,8,4095,4096}",
+                        "hostile": "message-structured streams: 3 rows (quick: first two of any of 11 kinds + a statement; thorough: all three of any kind)  (options missing/late/changed, entries, statements, graph markers, namespace, empty row) with one shared id value from {0,1,8,9,4096,4097,2^32-1} in every id field, options row present or missing, "
+                                   "quoted-triple nesting depth {1,50,99,100,101}, lying length prefix {exact, shorter, longer, 2^31-1, 0}; TRIPLES/QUADS/GRAPHS; flat/grouped/to_graph of the generic integration, flat of rdflib"},
+              "thorough": {"hostile": "all entry points of both integrations"}},
+      outside="ARBITRARY RAW BYTES (random / bit-flipped): the byte-level quantifier runs through protobuf's C parser (upb), which symbolic execution cannot enter, and 256^L is not enumerable - NOT claimed. "
+              "Memory used by io.BufferedReader/protobuf for a lying frame length is outside pyjelly's code and not measured.",
+      explanation="H-ALLOC + H-HOSTILE (reduced scope, see DESIGN.md C17)")
+def c17(tier):
+    us = []
+    for acc in (0, 1, 8, 4095, 4096):
+        us.append(U(f"alloc:{acc}", "opts", "lookup_max", dict(accept=acc), timeout=120))
+    stmt = {1: 5, 2: 6, 3: 5}
+    for integ in ("generic", "rdflib"):
+        for phys in (1, 2, 3):
+            if integ == "rdflib" and phys != 1 and tier == "quick":
+                continue
+            ent = ["flat", "grouped", "to_graph"] if (tier != "quick" or (integ == "generic" and phys == 1)) else ["flat"]
+            for k1 in range(11):
+                if tier == "quick":
+                    us.append(U(f"hostile:{integ}:p{phys}:k{k1}", "reject", "hostile", dict(integ=integ, phys=phys, k1=k1, k2=None, k3=stmt[phys], entries=ent), timeout=600))
+                else:
+                    for k2 in range(11):
+                        us.append(U(f"hostile:{integ}:p{phys}:k{k1}.{k2}", "reject", "hostile", dict(integ=integ, phys=phys, k1=k1, k2=k2, k3=None, entries=ent), timeout=900))
+    return us + [twin(us[0]), twin(us[6])]
+
+
+@prop("C14", functions=["pyjelly/serialize/encode.py:encode_namespace_declaration", "pyjelly/serialize/streams.py:Stream.namespace_declaration", "pyjelly/parse/decode.py:Decoder.decode_namespace_declaration",
+                        "pyjelly/integrations/generic/serialize.py:namespace_declarations", "pyjelly/integrations/generic/parse.py:GenericStatementSinkAdapter.namespace_declaration",
+                        "pyjelly/integrations/rdflib/serialize.py:namespace_declarations", "pyjelly/integrations/rdflib/parse.py:RDFLibAdapter.namespace_declaration", "pyjelly/options.py:StreamParameters.__post_init__"],
+      bounds={"quick": {"bindings": "0..2 bindings, labels {'', 'ex', non-ASCII}, namespace IRIs {with '/', with '#', no separator, non-ASCII, empty}; all symbolic",
+                        "streams": "2 statements, TRIPLES/QUADS/GRAPHS, frame_size symbolic (all integers >= 1), prefix table 1..2 so that declarations cause evictions, both integrations, option on and off"}},
+      outside="more than 2 bindings / 2 statements; rdflib's namespace manager decides which bindings a Graph exposes (its defaults are taken as given)",
+      explanation="H-PIPE with bindings: declarations read back by pyjelly and by the reference; statements identical with the option on and off; no NS row and version 1 with the option off; re-serialisation reproduces the declarations")
+def c14(tier):
+    us = []
+    for integ in ("generic", "rdflib"):
+        for phys in (1, 2, 3):
+            for (nm, pf, dt) in ((8, 4, 2), (8, 8, 8)):
+                if tier == "quick" and (pf == 8) != (phys == 2):
+                    continue
+                if integ == "generic":
+                    entry, pentry = "stream_frames_sink", "flat"
+                else:
+                    entry, pentry = "graph_serialize", "flat"
+                base = dict(integ=integ, phys=phys, names=nm, prefixes=pf, datatypes=dt, entry=entry, pentry=pentry, reser=True, setcmp=(integ == "rdflib"))
+                us.append(U(f"ns:{integ}:p{phys}:t{nm}-{pf}-{dt}:nb0", "ns", "ns", dict(base, nb=0), timeout=600))
+                if integ == "rdflib":
+                    for fl in range(3):
+                        us.append(U(f"ns:{integ}:p{phys}:t{nm}-{pf}-{dt}:nb1:l{fl}", "ns", "ns", dict(base, nb=1, fixl=fl), timeout=600))
+                else:
+                    us.append(U(f"ns:{integ}:p{phys}:t{nm}-{pf}-{dt}:nb1", "ns", "ns", dict(base, nb=1), timeout=600))
+                fixes = [(1, 0), (0, 2), (2, 4)] if (tier == "quick" or integ == "rdflib") else [(a, b) for a in range(3) for b in range(5)]
+                if tier == "quick" and integ == "rdflib":
+                    fixes = [(1, 0)] if phys == 1 else []
+                for fx in fixes:
+                    us.append(U(f"ns:{integ}:p{phys}:t{nm}-{pf}-{dt}:nb2:f{fx[0]}.{fx[1]}", "ns", "ns", dict(base, nb=2, fix1=list(fx)), timeout=600))
+    return us + [twin(us[1]), twin(us[-1])]
